@@ -58,7 +58,15 @@ type runner struct {
 }
 
 func newCase() h.CaseRunner {
-	d, err := os.MkdirTemp("", "verif-c04-")
+	// tmpfs when there is one: the case writes and fsyncs a dozen small files
+	base := ""
+	if st, err := os.Stat("/dev/shm"); err == nil && st.IsDir() && os.Getenv("VERIF_C04_DISK") == "" {
+		base = "/dev/shm"
+	}
+	d, err := os.MkdirTemp(base, "verif-c04-")
+	if err != nil {
+		d, err = os.MkdirTemp("", "verif-c04-")
+	}
 	if err != nil {
 		panic(err)
 	}
